@@ -1813,12 +1813,9 @@ func (s *Store) ExecuteTransaction(transaction *Transaction) error {
 
 	// update the txn counts
 	for k, v := range updateCountsPerDataset {
-		ds, ok := s.datasets.Load(k)
-		if !ok {
-			return errors.New("no dataset " + k)
-		}
-
-		err = ds.(*Dataset).updateDataset(v, nil, holdsCore)
+		// the datasets that were locked and written to, not whatever goes by these names by now: one of them may
+		// have been renamed, or deleted and created again, while the transaction waited for its locks
+		err = datasets[k].updateDataset(v, nil, holdsCore)
 		if err != nil {
 			return err
 		}
